@@ -246,6 +246,35 @@ func (pt *Point) Mv2Tag(key string) error {
 	return nil
 }
 
+// Rename moves the value of key from, together with its index entry, to key to.
+// A key that already exists under the new name is replaced.
+func (pt *Point) Rename(to, from string) error {
+	m, ok := pt.Meta[from]
+	if !ok {
+		return fmt.Errorf("key(from) %s not found", from)
+	}
+	if to == from {
+		return nil
+	}
+
+	pt.Delete(to)
+
+	if m.PtFlag == PtField {
+		if v, ok := pt.Fields[from]; ok {
+			pt.Fields[to] = v
+		}
+		delete(pt.Fields, from)
+	} else {
+		if v, ok := pt.Tags[from]; ok {
+			pt.Tags[to] = v
+		}
+		delete(pt.Tags, from)
+	}
+	delete(pt.Meta, from)
+	pt.Meta[to] = m
+	return nil
+}
+
 func (pt *Point) SetMeasurement(m string) {
 	pt.Measurement = m
 }
